@@ -78,6 +78,15 @@ def _case(draw):
             c["a"].append([{v: big, ins[-1]: -big}, 0.0]) if len(ins) > 1 else None
             c["g"].append([{o: 1.0, v: -sg}, 0.0])
         cls = cls + "+near-duplicate"
+    if cls in ("boxed", "wild") and draw(st.integers(0, 9)) == 0:
+        # a bound written with a coefficient below 1e-6 (2^-21, 5e-7): it still bounds the variable, at 1e6 times the constant
+        v = draw(st.sampled_from(outs))
+        tiny = draw(st.sampled_from([2.0 ** -21, 5e-7, 8e-7]))     # HiGHS itself ignores coefficients below about 1e-7
+        sg = draw(st.sampled_from([1.0, -1.0]))
+        u = draw(st.sampled_from(ins))
+        c["g"].append([{v: sg * tiny, u: -1.0}, float(draw(st.integers(0, 3)))])
+        c["a"].append([{u: 1.0}, float(w[u] + draw(st.sampled_from([1, 4])))])
+        cls = cls + "+tiny-coefficient"
     k = draw(st.integers(1, min(3, len(names))))
     ovars = draw(st.lists(st.sampled_from(names), min_size=k, max_size=k, unique=True))
     obj = [[v, draw(st.sampled_from([1, -1, 2, -2, 3, -3, 5]))] for v in ovars]
@@ -114,6 +123,14 @@ def _cmp(got, raised, kind, val, what):
 
 
 def run_case(case):
+    r = _run_case(case)
+    if r.get("viol"):
+        mags = [abs(v) for t in case["c"]["a"] + case["c"]["g"] for v in t[0].values() if v != 0]
+        r["viol"]["sig"]["below_solver_threshold"] = bool(mags) and min(mags) < 1e-7
+    return r
+
+
+def _run_case(case):
     c = case["c"]
     labels = ["class:" + case["cls"], "query:" + case["query"]]
     st_, con = env.call("construct", env.C, c, False)
